@@ -41,6 +41,8 @@ func (p c09Params) name() string {
 type c09State struct {
 	p               *vpipe.Pipe
 	t0, t1          int64
+	closeFrameSeen  bool
+	closeFrameAt    int64 // when the connection's own Close frame was on the wire (adversaries that wait for it)
 	actErr          error
 	actDone         bool
 	ctxDoneAt       int64
@@ -184,6 +186,21 @@ func c09Setup(prm c09Params) func(c *fw.Ctx, name string) explore.Setup {
 						}
 					case "halfclose":
 						st.p.SendEOF()
+					case "pingNoRead", "latePing":
+						// the peer reads the connection's Close frame, then stops reading; pingNoRead:
+						// it sends a Ping at once (the Pong cannot be written); latePing: 4.9 s later it
+						// sends the header and half the payload of a Ping and goes silent
+						if !st.p.WaitOut("close-frame", func(out []byte) bool { _, ok := firstClose(out); return ok }) {
+							return
+						}
+						st.closeFrameAt, st.closeFrameSeen = w.Now, true
+						st.p.SetWindow(len(st.p.Out) + 1) // (the window counts bytes not taken: nothing more gets through)
+						f := peerFrame(k, frame.Frame{Fin: true, Opcode: frame.OpPing, Payload: fill(0x71, 20)})
+						if prm.Adv == "latePing" {
+							vtime.Sleep(4900 * time.Millisecond)
+							f = f[:len(f)-10]
+						}
+						st.p.Send(f)
 					case "echo4900", "echo5000", "echo5100":
 						var cf frame.Frame
 						if !st.p.WaitOut("close-frame", func(out []byte) bool {
@@ -312,6 +329,10 @@ func c09Oracle(c *fw.Ctx, w *vs.World, name string, prm c09Params, st *c09State)
 		violate(c, w, name, "C09/Close-exceeds-bound/"+locus, fmt.Sprintf("Close returned after %v of virtual time (documented bound about 5s+5s): %v", time.Duration(dt), st.actErr))
 		return
 	}
+	if prm.Action == "Close" && st.closeFrameSeen && st.t1-st.closeFrameAt > 5*c09Sec+c09Sec/2 {
+		violate(c, w, name, "C09/Close-wait-exceeds-bound/"+locus, fmt.Sprintf("the Close frame was on the wire %v after Close was called; Close returned %v after that (documented: about 5 s to wait for the peer's Close frame): %v", time.Duration(st.closeFrameAt-st.t0), time.Duration(st.t1-st.closeFrameAt), st.actErr))
+		return
+	}
 	if prm.Action == "CloseNow" && dt > c09Sec {
 		violate(c, w, name, "C09/CloseNow-not-prompt/"+locus, fmt.Sprintf("CloseNow returned after %v of virtual time: %v", time.Duration(dt), st.actErr))
 		return
@@ -365,6 +386,12 @@ func c09Scenarios(tier string) []scenario {
 		for _, s := range []string{"idle", "reader", "reader-once", "closeread"} {
 			prm := c09Params{K: k, Adv: "slowThenData", State: s, Action: "Close"}
 			scs = append(scs, scenario{Name: prm.name(), Cfg: cfg, Setup: c09Setup(prm)})
+		}
+		for _, a := range []string{"pingNoRead", "latePing"} {
+			for _, s := range []string{"idle", "reader", "closeread"} {
+				prm := c09Params{K: k, Adv: a, State: s, Action: "Close"}
+				scs = append(scs, scenario{Name: prm.name(), Cfg: cfg, Setup: c09Setup(prm)})
+			}
 		}
 		for _, act := range []string{"Close", "CloseNow"} {
 			prm := c09Params{K: k, Adv: "dupPongs", State: "ping+reader", Action: act}
